@@ -383,7 +383,7 @@ def convergence_test(node: ast.AST) -> Tuple[str, str, ast.AST, ast.AST, bool]:
         try:
             q2, op, d, tol, has_abs = convergence_test(elt)
             if q2 != quant:
-                raise Unknown('mixed all/any in nested convergence test')
+                quant = 'any'  # an existential layer anywhere makes the whole test existential
         except Unknown:
             op, d, tol, has_abs = elementwise(elt)
         if isinstance(var, ast.Name) and isinstance(d, ast.Name) and d.id == var.id:
@@ -505,3 +505,44 @@ def enum_value_ref(node: ast.AST, enum_name: str = 'SolutionStatus') -> Optional
         if d and d.split('.')[-2:-1] == [enum_name]:
             return d.split('.')[-1]
     return None
+
+
+# ---------------------------------------------------------------------------
+# predicates for Run.require (searching callees for a moved element)
+# ---------------------------------------------------------------------------
+
+def pred_call_attr(*attrs: str):
+    return lambda n: isinstance(n, ast.Call) and isinstance(n.func, ast.Attribute) and n.func.attr in attrs
+
+
+def pred_raise(*classes: str):
+    def p(n: ast.AST) -> bool:
+        if not isinstance(n, ast.Raise) or n.exc is None:
+            return False
+        e = n.exc.func if isinstance(n.exc, ast.Call) else n.exc
+        return (dotted(e) or '').split('.')[-1] in classes
+    return p
+
+
+def pred_series_store(series: str, aug: Optional[bool] = None):
+    def p(n: ast.AST) -> bool:
+        if isinstance(n, ast.Assign) and aug is not True:
+            tg = n.targets
+        elif isinstance(n, ast.AugAssign) and aug is not False:
+            tg = [n.target]
+        else:
+            return False
+        for t in tg:
+            if isinstance(t, ast.Subscript) and isinstance(t.value, ast.Attribute) and t.value.attr == series:
+                return True
+        return False
+    return p
+
+
+def pred_compare_names(*names: str):
+    def p(n: ast.AST) -> bool:
+        if not isinstance(n, ast.Compare):
+            return False
+        ids = {x.id for x in ast.walk(n) if isinstance(x, ast.Name)}
+        return set(names) <= ids
+    return p
